@@ -17,11 +17,15 @@ Monitor: two Python references judge the implementation's own output independent
 import os
 import re
 import subprocess
+import sys
 from concurrent.futures import ThreadPoolExecutor, ProcessPoolExecutor
 
 import vf
 import c02_gen
 import c02_ref
+
+sys.path.insert(0, os.path.join(vf.VERIF, "extract"))
+import c2lean  # noqa: E402
 
 PID = "C02"
 PROP_MODULES = ["UsualProofs.Props.C02"]
@@ -40,7 +44,8 @@ def build(ck):
     except c02_gen.ExtractError as e:
         ck.proof_ok = False
         ck.broken.append("T-tie: table extraction failed: " + str(e)[:300])
-    ck.build_proofs(PROP_MODULES, driver="drv_c02")
+    # T-tie for parse_hex: lean/Usual/Gen/C02T.lean re-translated, UsualProofs/Bridge/C02T.lean re-checked
+    ck.build_proofs(PROP_MODULES + c2lean.ttie(ck, vf, PID), driver="drv_c02")
     h = ck.cc(os.path.join(ck.bdir, "h"), [os.path.join(vf.HARNESS, PID, "h.c")] + REPO_SRCS, libs=["-lm"])
     return [h], [ck.driver_path("drv_c02")]
 
